@@ -197,6 +197,10 @@ func (d *intDecoder) DecodeStream(s *Stream, depth int64, p unsafe.Pointer) erro
 	if bytes == nil {
 		return nil
 	}
+	if c := s.charAfterNumber(); c == '.' || c == 'e' || c == 'E' {
+		// a fraction or an exponent follows the digits: not an integer literal
+		return d.typeError(bytes, s.totalOffset())
+	}
 	i64, err := d.parseInt(bytes)
 	if err != nil {
 		return d.typeError(bytes, s.totalOffset())
